@@ -282,10 +282,11 @@ class C04(Prop):
     # ---- known-finding input classes (known_findings.json) -------------------------------
     NEG_AXIS_OPS = ("repeat", "take", "compress", "concatenate", "stack")
 
-    def _finding(self, case):
+    def _findings(self, case):
         s = case["stages"][0]
         f = s["f"]
         a = s.get("a") or {}
+        out = []
         axes = []
         for k in ("axis", "axis1", "axis2"):
             v = a.get(k)
@@ -294,24 +295,28 @@ class C04(Prop):
             elif isinstance(v, list):
                 axes += v
         if f in self.NEG_AXIS_OPS and any(x < 0 for x in axes):
-            return "C04-negative-axis-" + f
+            out.append("C04-negative-axis-" + f)
         if f == "diagonal" and a["offset"] < 0:
-            return "C04-diagonal-negative-offset"
+            out.append("C04-diagonal-negative-offset")
         if f == "roll":
             shp = case["arrays"][0]["shape"]
             if a["axis"] is None:
                 if abs(a["shift"]) > prod(shp):
-                    return "C04-roll-shift-exceeds-extent"
+                    out.append("C04-roll-shift-exceeds-extent")
             else:
                 axl = a["axis"] if isinstance(a["axis"], list) else [a["axis"]]
                 shl = a["shift"] if isinstance(a["shift"], list) else [a["shift"]] * len(axl)
                 if any(abs(sv) > shp[ax] for sv, ax in zip(shl, axl)):
-                    return "C04-roll-shift-exceeds-extent"
+                    out.append("C04-roll-shift-exceeds-extent")
         if f == "take" and any(i < 0 for i in a["indices"]):
-            return "C04-take-negative-index"
+            out.append("C04-take-negative-index")
         if f == "linspace" and a["num"] == 1:
-            return "C04-linspace-num-1"
-        return None
+            out.append("C04-linspace-num-1")
+        return out
+
+    def _finding(self, case):
+        from ..core import pick_class
+        return pick_class(self.id, self._findings(case))
 
     def excluded(self, case):
         if case.get("_witness"):
